@@ -111,7 +111,9 @@ def oracle(run: Run, c, impl):
         speed = float(np.linalg.norm(x[3:]))
         axis_dist = math.hypot(e[0], e[1])
         expect = float(Earth.spin_rate) * axis_dist
-        if abs(speed - expect) > 1e-6 + 1e-6 * expect:
+        # the rotation axis of date is the celestial intermediate pole, up to ~0.6 arcsec (allowed here: 4e-6 rad) from the Earth-fixed z axis (polar motion):
+        # near the geographic poles that moves the distance from the axis by up to |r| * 4e-6
+        if abs(speed - expect) > 1e-6 * expect + float(Earth.spin_rate) * float(np.linalg.norm(e[:3])) * 4e-6 + 1e-9:
             fails.append(("inertial-velocity", f"inertial speed {speed:.9f} km/s, Earth rotation at that point gives {expect:.9f} km/s ({st['when']})"))
             break
     run.worse("position-error-m", worst)
@@ -164,7 +166,7 @@ def main():
     )
     run.rule = ("sites at random latitude/longitude/altitude incl. near the poles and the antimeridian; starts on whole minutes and odd seconds, runs crossing UTC midnight (one or several), "
                 "the 2016-12-31 leap second and year ends; facilities that join after the clock has advanced; steps 30-3600 s")
-    run.assumptions = ["'within a metre' of the configured Earth-fixed position; inertial speed within 1e-6 relative of omega x r"]
+    run.assumptions = ["'within a metre' of the configured Earth-fixed position; inertial speed within 1e-6 relative of omega x (distance from the axis), the axis taken within 4e-6 rad (polar motion) of the Earth-fixed z axis"]
     run.lean_phase()
     if run.args.replay:
         rp = json.loads(Path(run.args.replay).read_text())
